@@ -299,10 +299,12 @@ pub fn c06(ctx: &Ctx) -> (CheckMeta, Outcome) {
         v.property = "C06".into();
     }
     out.merge(o2);
+    // bits consumed by a read whose codeword ends with the last bit of a strict stream
+    out.merge(crate::props::readers::tail_exact("C06", ctx));
     let meta = CheckMeta {
         property: "C06".into(),
         level: "exploration".into(),
-        rule: "bounded-exhaustive: (1) every library length function (len_*, len_*_param with tables on/off, byte_len_vbyte, Codes::len, FuncCodeLen, ConstCode::len) vs the reference codeword length for all codes/parameters, all values below 2^20 (2^22 thorough) for core codes, below 2^10 otherwise, every 2^i+-2, every code-specific step point, domain maxima, seeded extras (no codeword-length restriction); (2) streams as in C03: value returned by write_*, growth of the real stream and bit_pos advance of every read variant; non-trivial = value at which the reference length steps, or value > 2^32".into(),
+        rule: "bounded-exhaustive: (1) every library length function (len_*, len_*_param with tables on/off, byte_len_vbyte, Codes::len, FuncCodeLen, ConstCode::len) vs the reference codeword length for all codes/parameters, all values below 2^20 (2^22 thorough) for core codes, below 2^10 otherwise, every 2^i+-2, every code-specific step point, domain maxima, seeded extras (no codeword-length restriction); (2) streams as in C03: value returned by write_*, growth of the real stream and bit_pos advance of every read variant, also for codewords that end with the last bit of a strict stream; non-trivial = value at which the reference length steps, or value > 2^32".into(),
         assumptions: vec!["reference length = length of the reference codeword (harness/src/model.rs)".into()],
     };
     (meta, out)
